@@ -222,3 +222,49 @@ def periodic(tier, seed, n=None):
                 steps.append({"op": "tick", "d": r.choice([0, 1, 3])})
         out.append({"id": "periodic/%04d" % i, "backend": "fs" if i % 3 == 2 else "mem", "opt": {}, "steps": steps, "grp": "", "spv": 0})
     return out
+
+
+def random_store(tier, seed, n=None):
+    """every status 100-599 with random directives; bodies failing at every byte"""
+    r = random.Random(seed * 49979687 + 13)
+    out = []
+    sts = list(range(100, 600)) if tier == "thorough" else r.sample(range(100, 600), 120) + [100, 101, 102, 103, 199, 206, 226, 304, 599]
+    i = 0
+    for st in sts:
+        if st == 304:
+            continue
+        for _ in range(2 if tier == "quick" else 4):
+            fl = [f for f in ("no-store", "public", "must-understand", "private", "no-cache") if r.random() < 0.25]
+            a = ans(st=st, ccp=1 if fl or r.random() < 0.5 else 0, fl=fl, ma=r.choice([NONE, 60, 0, INVALID]), ex=r.choice([NONE, NONE, 60, INVALID]),
+                    lm=r.choice([NONE, 1000]), etag=r.choice([0, 1]))
+            if not a["ccp"]:
+                a["ma"] = NONE
+            q1 = rq(fl=["no-store"] if r.random() < 0.15 else [], range=1 if r.random() < 0.1 else 0,
+                    m=r.choice(["GET"] * 8 + ["HEAD", "POST"]), inm=9 if r.random() < 0.1 else 0)
+            steps = [{"op": "req", "rq": q1, "ans": [a]}, {"op": "tick", "d": 1},
+                     {"op": "req", "rq": rq(), "ans": [ans(ccp=1, ma=60, etag=2)]}]
+            out.append({"id": "rndstore/%05d" % i, "backend": "mem", "opt": {}, "steps": steps, "grp": "", "spv": 0})
+            i += 1
+    # body stream failing at every byte (the default body is 19 bytes long), several framings
+    for fr in (0, 1, 2):
+        for cut in range(0, 22 if tier == "quick" else 40):
+            a = ans(k="bodyerr", ccp=1, ma=60, etag=1, fr=fr, bodycut=cut, body=0 if cut < 22 else 6)
+            steps = [{"op": "req", "rq": rq(), "ans": [a]}, {"op": "tick", "d": 1}, {"op": "req", "rq": rq(), "ans": [ans(ccp=1, ma=60, etag=2)]},
+                     {"op": "tick", "d": 1}, {"op": "req", "rq": rq(), "ans": [ans(ccp=1, ma=60, etag=2)]}]
+            out.append({"id": "bodycut/%d-%03d" % (fr, cut), "backend": "fs" if cut % 2 else "mem", "opt": {}, "steps": steps, "grp": "", "spv": 0})
+    return out
+
+
+def random_bytes(tier, seed, n=None):
+    """seeded random bodies and header shapes on every backend; store, hit, revalidate, hit"""
+    r = random.Random(seed * 86028121 + 19)
+    n = n or (60 if tier == "quick" else 1500)
+    out = []
+    for i in range(n):
+        a = ans(ccp=1, ma=5, etag=1, fr=r.randrange(0, 6), body=r.choice([0, 1, 2, 3, 6, 6, 6, 4]), hop=r.randrange(0, 2), age=r.choice([NONE, 3]),
+                st=r.choice([200, 200, 203, 404, 410, 301]))
+        a304 = ans(k="304", st=304, ccp=1, ma=50, etag=1, upd=1, hop=r.randrange(0, 2))
+        steps = [{"op": "req", "rq": rq(), "ans": [a]}, {"op": "tick", "d": 2}, {"op": "req", "rq": rq(), "ans": []},
+                 {"op": "tick", "d": 9}, {"op": "req", "rq": rq(), "ans": [a304]}, {"op": "tick", "d": 2}, {"op": "req", "rq": rq(), "ans": []}]
+        out.append({"id": "rndbytes/%05d" % i, "backend": ["mem", "fs", "fsenc"][i % 3], "opt": {}, "steps": steps, "grp": "", "spv": 0})
+    return out
